@@ -80,6 +80,7 @@ StrategyOK(e) ==
          (e.out = "ok" =>
             /\ Len(e.e2) = e.bins_len + 1
             /\ IsSortedWeak(e.e2)                                      \* (doubled ranks: distinct edges between the same two data values share a rank)
+            /\ Has(e, "strict") => e.strict                             \* as values the edges increase strictly: no degenerate bin [x, x)
             /\ e.e2[1] = 2                                            \* first edge = data minimum (doubled rank of the smallest value)
             /\ e.e2[Len(e.e2)] > 2 * e.nvals                          \* last edge strictly above the maximum
             /\ e.e2[Len(e.e2) - 1] <= 2 * e.nvals                     \* by at most one bin width
